@@ -27,6 +27,7 @@ def daemon_test(name, test_filter, cases, release=False, timeout=1500, extra_env
     (cfg(all(test, osrg_rustybgp_verif))) from /repo's current working tree."""
     cin, cout = _write_cases(name, cases)
     env = {'RUSTFLAGS': '--cfg ' + GUARD,
+           'VERIF_HX_DIR': os.path.join(VERIF, 'harness'),
            'CARGO_TARGET_DIR': os.path.join(BUILD, 'daemon'),
            'VERIF_CASES': cin, 'VERIF_OUT': cout}
     if extra_env:
@@ -47,6 +48,8 @@ def crate_bin(name, crate, args, cases, release=False, timeout=1500, extra_env=N
     if not os.path.exists(lock):
         shutil.copy(os.path.join(REPO, 'Cargo.lock'), lock)
     env = {'CARGO_TARGET_DIR': os.path.join(BUILD, crate),
+           'VERIF_HX_DIR': os.path.join(VERIF, 'harness'),
+           'VERIF_REPO': REPO,
            'VERIF_CASES': cin, 'VERIF_OUT': cout}
     if extra_env:
         env.update(extra_env)
